@@ -937,7 +937,7 @@ def standin_lsp_positions(tier, seed):
         docs = [('shipped ' + r, 'file://' + os.path.join(root, r), t, True) for r, t in shipped]
         specials = list(SPECIALS) + (HUGE if thorough else [('long list line', 'let x = [' + '1, ' * 1000 + '1];')])
         mutated = []
-        for i in range(len(rels) * 4 if thorough else 24):
+        for i in range(len(rels) * 4 if thorough else 16):
             r = rels[i % len(rels)] if thorough else rnd.choice(rels)
             t = alltexts[rels.index(r)]
             how = []
@@ -945,7 +945,7 @@ def standin_lsp_positions(tier, seed):
                 h, t = mutate(rnd, t)
                 how.append(h)
             mutated.append(('%s, %s' % (r, '; '.join(how)), t))
-        for i in range(40 if thorough else 8):
+        for i in range(40 if thorough else 6):
             mutated.append(('arbitrary UTF-8 #%d' % i, arbitrary_utf8(rnd)))
         scratch = [(lab, t) for lab, t in specials + mutated if '\n%%%%\n' not in t]
         rnd.shuffle(scratch)             # so that the texts a scratch uri holds one after the other are unrelated
@@ -961,7 +961,7 @@ def standin_lsp_positions(tier, seed):
                  '%s 10 x 9 boundary positions (line in {0, mid, last, count, count+1, 2^31-1, 2^31, u32::MAX-1, u32::MAX} x character in {0, len-1, len, len+1, len+2, 2^31.., u32::MAX}); '
                  '%d workspace/symbol queries; requests on a closed and on a never opened uri; diagnostics of every document against parser and compiler'
                  % (len(docs), len(shipped), len(rels), '' if thorough else ' (seeded choice)', len(specials), 'lines up to 200 KB' if thorough else 'a 3 KB line',
-                    len(mutated) - (40 if thorough else 8), 40 if thorough else 8, 'every (shipped; 60 sampled for the other texts)' if thorough else '25 (shipped) / 8 (other texts) sampled',
+                    len(mutated) - (40 if thorough else 6), 40 if thorough else 6, 'every (shipped files, at most 800 sampled per file; 60 sampled for the other texts)' if thorough else '20 (shipped) / 8 (other texts) sampled',
                     'the' if thorough else '(all for the shipped files and every 9th text, 10 sampled otherwise of) the', 6))
         texts = [d[2] for d in docs]
         # parser, tokenizer and compiler verdicts (in parallel with each other).  (f): shipped files are built by the real binary in a second
@@ -989,6 +989,7 @@ def standin_lsp_positions(tier, seed):
         srv.initialize()
         world = World()
         opened_scratch = set()
+        hist = {}
         how0 = '`ucg lsp` started in a copy of integration_tests/ std/ examples/ (rootUri = that directory), initialize, initialized, '
         for di, (lab, uri, text, is_shipped) in enumerate(docs):
             srv.sent = []
@@ -1003,7 +1004,7 @@ def standin_lsp_positions(tier, seed):
             reqs = {}
             reqs[srv.post(*sem_req(uri))] = ('semantic', None)
             tp = token_positions(text, toks[di][1] if toks[di][0] == 'OK' else None)
-            cap = (1200 if is_shipped else 60) if thorough else (25 if is_shipped else 8)
+            cap = (800 if is_shipped else 60) if thorough else (20 if is_shipped else 8)
             if len(tp) > 3 * cap:
                 pick = rnd.sample(range(len(tp) // 3), cap)
                 tp = [p for k in pick for p in tp[3 * k:3 * k + 3]]
@@ -1017,6 +1018,9 @@ def standin_lsp_positions(tier, seed):
                 reqs[srv.post(*sym_req(''))] = ('symbol', None)
             n += len(reqs)
             src = {uri: short(text)}
+            earlier = hist.setdefault(uri, [])
+            before = [dict(document=a, text=b) for a, b in (earlier if len(earlier) <= 6 else earlier[:2] + earlier[-4:])]
+            earlier.append((lab, short(text, 1500)))
             try:
                 got = srv.collect(list(reqs))
             except (Dead, NoAnswer) as e:
@@ -1034,9 +1038,13 @@ def standin_lsp_positions(tier, seed):
                 w = response_problem(kind, uri, got[rid], world, tol)
                 if w:
                     req = next(m for m in srv.sent if m.get('id') == rid)
+                    rep = replay_minimal(root, [(uri, text)], req)
+                    alone = rep[0] if rep[0] != 'answered' else ('the same kind of problem' if response_problem(kind, uri, rep[1], world, {}) else 'no problem: the history matters')
                     return viol(name, bound, n, 'document "%s", %s %s: %s' % (lab, req['method'], json.dumps(req['params'].get('position', req['params'].get('query'))), w),
                                 source=src, document=lab, request=req, request_bytes=frame(req), expected='every range of the answer lies inside the document it names',
-                                observed=json.dumps(got[rid], ensure_ascii=False)[:1500], how=how0 + '%s(uri, source), then the request' % note[0])
+                                observed=json.dumps(got[rid], ensure_ascii=False)[:1500], earlier_texts_of_this_uri=before,
+                                minimal_replay='fresh server, didOpen(uri, source), the request -> ' + alone,
+                                how=how0 + 'the earlier texts of the uri (didOpen, then didChange), %s(uri, source), then the request' % note[0])
             # diagnostics of this text
             ds = srv.diags.get(uri)          # what the client shows: the diagnostics published last for the uri
             n += 1
@@ -1047,7 +1055,10 @@ def standin_lsp_positions(tier, seed):
                 ds = []
             w = diag_clause_problem(text, ds, verdicts[di], built[di], tol)
             if w:
-                return viol(name, bound, n, 'document "%s": %s' % (lab, w[1]), source=src, document=lab, clause=w[0],
+                fd = fresh_diags(root, uri, text)
+                alone = 'dead' if isinstance(fd, tuple) else ('the same kind of problem' if diag_clause_problem(text, fd or [], verdicts[di], built[di], {}) else 'no problem: the history matters')
+                return viol(name, bound, n, 'document "%s": %s' % (lab, w[1]), source=src, document=lab, clause=w[0], earlier_texts_of_this_uri=before,
+                            minimal_replay='fresh server, didOpen(uri, source) -> ' + alone,
                             expected={'c': 'diagnostic ranges inside the document', 'e': 'a diagnostic at the parser\'s position',
                                       'f': 'no diagnostics for a text the compiler builds (%s)' % ('`ucg build %s` exits 0 in a copy of the trees' % lab[8:] if is_shipped else 'replay driver `buildfile`: OK')}[w[0]],
                             observed=show_diags(ds), how=how0 + '%s(uri, source); publishDiagnostics for the uri' % note[0])
@@ -1170,8 +1181,8 @@ def standin_lsp_sessions(tier, seed):
     rnd = random.Random(seed)
     thorough = tier == 'thorough'
     name = 'lsp_sessions'
-    nsess = 150 if thorough else 14
-    per_server = 15 if thorough else 14
+    nsess = 120 if thorough else 12
+    per_server = 15 if thorough else 12
     bound = ('%d seeded sessions of 1..30 messages over 1..3 documents (doc0.ucg exists on disk with another text, doc1.ucg / doc2.ucg do not; root also holds lib/shared.ucg), %d '
              'sessions per server process: didOpen / didChange (1 text, 2 texts, no text; also on unopened uris) / didClose (also of unopened uris) / re-open, hover / definition / '
              'completion at token starts, inside and behind tokens, line ends, beyond the text and at u32 boundaries, semantic tokens, workspace symbols; texts: 40%% generated '
@@ -1313,7 +1324,7 @@ def standin_lsp_sessions(tier, seed):
         for i, ok in zip(okidx, builds_ok([texts[i] for i in okidx])):
             built[i] = ok
         seen = {}
-        limit = len(finals) if thorough else 12
+        limit = len(finals) if thorough else 10
         for i, (si, u, t, ds, hist) in enumerate(finals):
             if (u, t) not in seen and len(seen) < limit:
                 seen[(u, t)] = pool.submit(fresh_diags, root, u, t)
